@@ -4,8 +4,9 @@
 // transaction type × payload version, Block, DposBlock, Header, AuxPow, Confirm, every p2p/msg and
 // dpos/p2p/msg message — all produced by the repository's own serialisers) every truncation,
 // every single-field substitution over the boundary alphabet (fields are discovered by a tracking
-// reader from the decoder's own Read calls), every single-byte substitution over a 16-value
-// alphabet; in the thorough tier every pair of fields and all 256 byte values.
+// reader from the decoder's own Read calls), every single-byte substitution of the field bytes and
+// the first 64 bytes over an 8-value alphabet; in the thorough tier every byte × all 256 values and
+// every pair of fields.
 // Oracle: the decoder returns (value | error), never panics, and the bytes it allocates
 // (cumulative heap-allocation counter = MemStats.TotalAlloc, delta over the call, single goroutine, worker subprocess under ulimit -v) stay
 // below 64·len(input) + 24 MiB.
@@ -35,7 +36,7 @@ const (
 	// a decoder that keeps calling Read this many times in a row after the input is exhausted is
 	// cut off (sentinel panic raised by the harness reader, recovered by the harness); what it
 	// allocated until then is measured like any other case.
-	eofReadCap  = 1 << 20
+	eofReadCap  = 1 << 18
 	workerMemMB = 2048
 	chunk0      = 4000
 	learnMin    = 1 << 16 // only counts at least this large are learned as allocation sizes
@@ -285,15 +286,21 @@ func (g *caseGen) each(from int, f func(idx int, kind, label string, input []byt
 			}
 		}
 	}
-	// 3. every single-byte substitution
-	alpha := wire.ByteAlphabet16
+	// 3. single-byte substitutions. quick: every byte of every discovered field and the first 64
+	// bytes of the seed × the 8-value alphabet; thorough: every byte × all 256 values
+	alpha := wire.ByteAlphabet8
+	positions := wire.FieldBytePositions(len(g.seed), g.fields, 64)
 	if g.tier == "thorough" {
 		alpha = make([]byte, 256)
 		for i := range alpha {
 			alpha[i] = byte(i)
 		}
+		positions = positions[:0]
+		for p := 0; p < len(g.seed); p++ {
+			positions = append(positions, p)
+		}
 	}
-	for p := 0; p < len(g.seed); p++ {
+	for _, p := range positions {
 		for _, v := range alpha {
 			if v == g.seed[p] {
 				continue
